@@ -350,20 +350,24 @@ CLAIMED["C03"] = dict(
 
 CLAIMED["C08"] = dict(
     engine="tok", design_ref="6.8",
-    technique="Lean 4 proof of the per-transition core (fast path = slow path for non-set characters; char sets regenerated "
-              "from the source equal the model's; BOM prologue) + option-flipping oracle on the real code + correspondence "
-              "under all option combinations",
-    text="Proved: the small_char_set of every pop_except_from state (regenerated from tokenizer/mod.rs on every run) is the "
-         "model's set, contains CR/LF/NUL, and the SIMD stop sets are derived from the data-state set; in every such state a "
-         "character outside the set is handled identically as FromSet (slow path: exact_errors/reconsume/pending LF) and inside "
-         "a NotFromSet run (fast path, SIMD), except five characters in the unquoted attribute state for which the slow path "
-         "only adds a parse error; discard_bom acts on the first character of the stream only. PARTIAL: the whole-run statement "
-         "(token streams with/without exact_errors equal modulo errors) is decided on the real code by running every cover input "
-         "and chunking under all exact_errors x profile x discard_bom combinations (code vs code), and for the model by the "
-         "correspondence under the same combinations.",
-    note="Trusted: Lean kernel; tools/extract.py; tokenizer model + tok correspondence; SIMD lane arithmetic is not modelled "
-         "(exact_errors forces the scalar path, so the oracle compares SIMD and scalar on the real code). Tree-builder options "
-         "and xml5ever are covered by their own engines.")
+    technique="Lean 4 proof: simulation between two runs of the tokenizer model that differ only in TokenizerOpts (equal up "
+              "to parse errors and a dead current_char), through every reader, all 73 states, the character-reference "
+              "machine, feed and end(); char sets regenerated from the source equal the model's; option-flipping oracle "
+              "on the real code + correspondence under all option combinations",
+    text="Proved (C08_exact_errors_tokens): for any two values of exact_errors, any machine, any chunking and any sink whose "
+         "answers do not depend on parse errors, the sessions deliver the same (token, line) sequence once parse errors are "
+         "erased, and Tokenizer::end() adds the same tokens - so exact_errors changes the wording and number of parse errors "
+         "and nothing else. Also proved: the small_char_set of every pop_except_from state (regenerated from tokenizer/mod.rs on "
+         "every run) is the model's set, contains CR/LF/NUL, and the SIMD stop sets are derived from the data-state set; a "
+         "character outside the set is handled identically as FromSet (slow path) and inside a NotFromSet run (fast path, SIMD), "
+         "except five characters in the unquoted attribute state for which the slow path only adds a parse error; discard_bom "
+         "acts on the first character of the stream only. On the real code every cover input and chunking is run under all "
+         "exact_errors x profile x discard_bom combinations (code vs code) and the tree-builder options exact_errors x "
+         "drop_doctype through the full parser; the model is tied by the correspondence under the same combinations.",
+    note="Trusted: Lean kernel; tools/extract.py; tokenizer model + tok correspondence; hypothesis PolE (the sink ignores parse "
+         "errors: true of html5ever's tree builder). SIMD lane arithmetic is not modelled (exact_errors forces the scalar "
+         "path, so the oracle compares SIMD and scalar on the real code). `profile` and the tree-builder options are decided "
+         "by the oracle, xml5ever's options by C15.")
 
 CLAIMED["C09"] = dict(
     engine="tok", design_ref="6.9",
@@ -415,7 +419,7 @@ CLAIMED["C04"] = dict(
     engine="tok+xmltok+total", design_ref="6.4",
     technique="Lean 4 proof for the HTML tokenizer model: no-panic invariant (all panic sites explicit), termination of the "
               "run loop by a strictly decreasing measure below the fuel bound, feed drains, end() total with EOF last; the "
-              "no-panic invariant, feed-drains, eof-loop and EOF-last theorems ported to the XML tokenizer model; runtime "
+              "same four results ported to the XML tokenizer model; runtime "
               "totality (catch_unwind, per-case watchdog with bisection, 10^4..10^6 depth/length families) for the tree "
               "builders and real stack/time",
     text="PARTIAL. Proved for html5ever's tokenizer + character-reference tokenizer (model, every input, chunking, start state, "
@@ -428,11 +432,13 @@ CLAIMED["C04"] = dict(
          "(kernel-checked fact: every entity-name character is alphanumeric or ';'); (3) a step that asks for more input has "
          "emptied the queue (also at EOF); (4) end() completes for EVERY sink from every machine a feed can stop in - it never "
          "delivers a tag, so neither assert of end() can fail - and its last token is EOF; the eof_step loop needs at most 3 of its "
-         "rounds. Proved for xml5ever's tokenizer model: (1), (3), eof loop total, EOF last (fuel bound: in progress). Not proved "
+         "rounds. Proved for xml5ever's tokenizer model as well: (1), (2) with the same measure, (3), and end() total with EOF last "
+         "(C04_xml_parse_total: any chunk list then end() completes). Not proved "
          "(a model cannot exhibit real stack exhaustion, allocator aborts or wall-clock time; the tree-builder models have no "
          "totality theorem): exercised instead - every tokenizer cover case and stress string (HTML and XML, whole and chunked), "
          "whole-parser runs on pathological documents/fragments/XML (every element class nested 3*10^3 deep in quick, 10^5 deep "
-         "and 10^6 long in thorough), every element name x every fragment context, must complete without panic/abort/hang, drain "
+         "and 10^6 long in thorough), every element name x every fragment context, the adoption-agency / Noah's-ark / foster-"
+         "parenting / foreign-named-element / CDATA-edge families as documents and fragments, must complete without panic/abort/hang, drain "
          "the queue after every feed and deliver exactly one EOF last; the model's fuel must never run out.",
     note="Trusted: Lean kernel; tokenizer models + tok/xmltok correspondence (a Rust panic surfaces as PANIC/ABORT, a hang as HANG "
          "through the harness watchdog); tools/vlib.py bisection; contract-abiding sinks (RcDom / recording sink). The sink is "
